@@ -119,6 +119,39 @@ fn hosts() -> Vec<Host> {
             applies: |_| true,
         },
 
+        // E at the start of a delegated run that ends in a constant-size non-literal
+        Host {
+            name: "(?<!x)E[a7x\\-]",
+            build: |e| format!("(?<!x){}[a7x\\-]", e),
+            expect: |t, s, from| {
+                for (p, _) in t.char_indices().chain(std::iter::once((t.len(), ' '))).filter(|(p, _)| *p >= from) {
+                    if t[p..].starts_with(s) && !t[..p].ends_with('x') {
+                        if let Some(c) = t[p + s.len()..].chars().next() {
+                            if matches!(c, 'a' | '7' | 'x' | '-') {
+                                return Some(vec![Some((p, p + s.len() + 1))]);
+                            }
+                        }
+                    }
+                }
+                None
+            },
+            applies: |s| !s.is_empty(),
+        },
+        Host {
+            name: "(?=)E(?s:.)",
+            build: |e| format!("(?=){}(?s:.)", e),
+            expect: |t, s, from| {
+                for (p, _) in t.char_indices().filter(|(p, _)| *p >= from) {
+                    if t[p..].starts_with(s) {
+                        if let Some(c) = t[p + s.len()..].chars().next() {
+                            return Some(vec![Some((p, p + s.len() + c.len_utf8()))]);
+                        }
+                    }
+                }
+                None
+            },
+            applies: |s| !s.is_empty(),
+        },
         // key / value: the escaped string behind a look-behind for itself
         Host {
             name: "(?<=E)E",
@@ -404,7 +437,7 @@ pub fn run(ctx: &Ctx) -> Outcome {
     let mut out = Outcome::new(acc);
     out.distinct_nontrivial = out.acc.distinct;
     out.exhaustive = true;
-    out.rule = format!("all strings of length <= {} over {} symbols (every ASCII punctuation character incl. all regex meta-characters, a b 1 space newline é € 😀 ß ﬁ) plus {} seeded random strings of length 3-10; for each s: Cow::Borrowed iff s contains none of \\.+*?()|[]{{}}^$# ; Regex::new(host(escape(s))) compiles for {} hosts (E, (?:E), (E)\\1, (?=E)E, [ab]*E, (?<=E), (?>E)c?, (?:E){{2}}, (?!E)., (?<!-)[ab]E, E\\d?(?=), (?<=E)E, (?<=E)., (?=.?)E(?:(?=c)c|)*(?!!), (?!!)(E)(?:(?=c)c|)*?(?![c])\\1?, (?<=(?>E))E, (?>(?!!)[ab]*E), (?=(?!!)[ab]*?E)[ab]?, (?<=a(?:E)b), (?>-(?:E)x)7?, (?((?=!))!(E)|a)-\\1, (?m:(?!!)^E(?!!)), (?m:(?=)E$(?=)), (?x:E) for whitespace-free s, (?i:E)x? for letter-free s) and on texts u+s+v, s+s, s with its last character altered the captures equal what plain string search predicts, for a search from the start and from every later character boundary. Non-trivial: distinct strings containing a meta-character.", maxlen, SYMS.len(), n_random, hs_count);
+    out.rule = format!("all strings of length <= {} over {} symbols (every ASCII punctuation character incl. all regex meta-characters, a b 1 space newline é € 😀 ß ﬁ) plus {} seeded random strings of length 3-10; for each s: Cow::Borrowed iff s contains none of \\.+*?()|[]{{}}^$# ; Regex::new(host(escape(s))) compiles for {} hosts (E, (?:E), (E)\\1, (?=E)E, [ab]*E, (?<=E), (?>E)c?, (?:E){{2}}, (?!E)., (?<!-)[ab]E, E\\d?(?=), (?<!x)E[a7x\\-], (?=)E(?s:.), (?<=E)E, (?<=E)., (?=.?)E(?:(?=c)c|)*(?!!), (?!!)(E)(?:(?=c)c|)*?(?![c])\\1?, (?<=(?>E))E, (?>(?!!)[ab]*E), (?=(?!!)[ab]*?E)[ab]?, (?<=a(?:E)b), (?>-(?:E)x)7?, (?((?=!))!(E)|a)-\\1, (?m:(?!!)^E(?!!)), (?m:(?=)E$(?=)), (?x:E) for whitespace-free s, (?i:E)x? for letter-free s) and on texts u+s+v, s+s, s with its last character altered the captures equal what plain string search predicts, for a search from the start and from every later character boundary. Non-trivial: distinct strings containing a meta-character.", maxlen, SYMS.len(), n_random, hs_count);
     out.assumptions = vec!["'needs escaping' is the set \\.+*?()|[]{}^$# (regex meta-characters plus the comment character #)".into()];
     out
 }
